@@ -319,6 +319,22 @@ class Reporter(object):
 
 # =========================================================================== application layer tracking
 
+class Regen(object):
+    """a sent payload the tracker does NOT keep alive (the application dropped its reference right after send()): regenerated
+    from its id when a comparison needs it"""
+
+    def __init__(self, sender, counter, length, fill):
+        self.args = (sender, counter, length, fill)
+
+    def get(self):
+        return make_payload(*self.args)
+
+
+def payload_of(rec):
+    p = rec["payload"]
+    return p.get() if isinstance(p, Regen) else p
+
+
 class AppTracker(object):
     """sends (through the public APIs), deliveries and callbacks with unique payload ids.
     Decides C04 (at most once), C06 (bytes identical / nothing fabricated) and feeds C05/C07."""
@@ -366,7 +382,7 @@ class AppTracker(object):
             elif sender is not None:
                 self.endpoint_accepted.add((id(sender), int(seq)))
 
-    def send(self, endpoint, side, length, retry, api="send", with_cb=True, fill="random", payload=None, extra_cb=None, raw_cb=None, assume_open=False):
+    def send(self, endpoint, side, length, retry, api="send", with_cb=True, fill="random", payload=None, extra_cb=None, raw_cb=None, assume_open=False, keep_payload=True):
         """endpoint: ClientEnd (side 'client') or a ServerClientConnection (side 'server').
         extra_cb: called (value) after the callback was recorded (re-entrant use of the API from a callback);
         raw_cb: THE callback object handed to the library (several sends may share it); such a send has no callback record"""
@@ -375,6 +391,7 @@ class AppTracker(object):
         sender = endpoint.sender_id if side == "client" else 0
         conn = endpoint.udp.conn if side == "client" else endpoint
         self.counter += 1
+        generated = payload is None
         if payload is None:
             if length >= ID_LEN:
                 payload = make_payload(sender, self.counter, length, fill)
@@ -427,6 +444,9 @@ class AppTracker(object):
             rec["refused"] = repr(ex)
             rec["queued_despite_raise"] = len(conn.outgoing_messages) - q0 if conn is not None else 0
             self.c.inc("send_raised")
+        if not keep_payload and generated and pid is not None and fill in ("random", "zeros", "ff", "text"):
+            rec["payload"] = Regen(sender, self.counter, len(payload), fill)      # nobody but the library holds the bytes now
+            payload = None
         if conn is not None:
             seq1 = int(conn.seq_message)
             rec["nmsgs"] = ring_diff(seq1, seq0) if seq1 != seq0 else 0
@@ -473,13 +493,13 @@ class AppTracker(object):
             # from the sender at send() time - and compared byte for byte
             sender = self._sender_conn(side, endpoint)
             rec = self.small_by_seq.get((id(sender), int(seqnum))) if sender is not None else None
-            if rec is None or rec["payload"] != payload:
+            if rec is None or payload_of(rec) != payload:
                 if len(payload) >= ID_LEN or rec is None:
                     self.report("C06", "fabricated-message", "a message that was never sent was delivered to the %s application: %s (message seq %d)" % (
                         side, short(payload), int(seqnum)), {"payload": short(payload, 64)})
                 else:
                     self.report("C06", "message-corrupted", "short message seq %d delivered as %s, sent as %s" % (
-                        int(seqnum), short(payload), short(rec["payload"])))
+                        int(seqnum), short(payload), short(payload_of(rec))))
                 return
             rec["delivered"] = rec.get("delivered", 0) + 1
             self.small_delivered.inc((sender_side, payload))
@@ -495,10 +515,10 @@ class AppTracker(object):
         if rec is None or rec["side"] != sender_side:
             self.report("C06", "fabricated-message", "delivered payload carries an id nobody sent: %r" % (pid,), {"payload": short(payload, 64)})
             return
-        if payload != rec["payload"]:
+        if payload != payload_of(rec):
             self.report("C06", self._classify_corruption(rec, payload),
                         "message %r (%d bytes, retry %d) delivered with different bytes: got %d bytes, first difference at %s" % (
-                            pid, rec["len"], rec["retry"], len(payload), _first_diff(payload, rec["payload"])),
+                            pid, rec["len"], rec["retry"], len(payload), _first_diff(payload, payload_of(rec))),
                         {"len": rec["len"], "retry": rec["retry"]})
         lst = self.deliveries.setdefault(pid, [])
         lst.append((w.clock.now, side, int(seqnum)))
@@ -834,6 +854,9 @@ class ResolutionMonitor(object):
             # (a half-open server-side connection is only looked after while the server loop runs: the idle loop sleeps until
             #  a datagram arrives - lateness is judged for connections the loop is driving)
             driven = e.role == "client" or w.ctxt.connections.get(getattr(e.conn, "addr", None)) is e.conn
+            # (an update() that ends in an OSError from sendto() skips its look at the timeouts: one frame of lateness per fault)
+            if driven and e.role == "client" and any(cl.udp.conn is e.conn and cl.sock.fail_rate for cl in w.clients):
+                slack += 4 * self.dt * (1 + self.world.jitter)
             if age > timeout + slack and not rec.get("named") and driven:
                 # late detection is only judged at the tick hook (outages of ticks do not exist here)
                 self.report("C07", "timeout-too-late", "datagram seq %d timed out after %.4fs (> %.3f + %.4f)" % (seq, age, timeout, slack))
